@@ -2945,7 +2945,9 @@ def _put_slice_Call_ClassDef_keywords(
     exprs_field = 'args' if ast.__class__ is Call else 'bases'
     exprs = getattr(ast, exprs_field)
 
-    if exprs and start < len(body) and body[start].f.loc < exprs[-1].f.loc:  # also an empty slice, an insertion there is not at index `start + nexprs` of the arglikes
+    if (exprs and start < len(body) and (start != stop or code is not None)
+        and body[start].f.loc < exprs[-1].f.loc
+    ):  # also an insertion to an empty slice, it would not be at index `start + nexprs` of the arglikes
         raise NodeError(f'cannot put to {ast.__class__.__name__}.keywords slice because it precedes {exprs_field}'
                         f", try the '_{exprs_field}' field")
 
